@@ -74,9 +74,32 @@ def undocumented_suffix(draw):
     return case
 
 
+@st.composite
+def int_for_float(draw):
+    """a `float` (or `complex`) parameter whose default is written as an INTEGER literal (`clip: float = -1`,
+    `scale: float = 2`) - ordinary Python, and a different literal type than the declared one"""
+    case = draw(gen_ir.interface("signature", suffix=True, min_params=1, max_params=4))
+    i = draw(st.integers(0, len(case["params"]) - 1))
+    case["params"][i][1].update({"typ": draw(st.sampled_from(["float", "float", "complex"])), "default": draw(st.sampled_from([-1, -7, -100, 2, 0, 1]))})
+    for _n, q in case["params"][i + 1:]:
+        if "default" not in q:
+            q.update({"typ": "int", "default": 3})  # keep the defaults a suffix
+    case["kinds"] = ["float" if j == i else ("int" if "default" in q and q.get("typ") == "int" and k not in ("int",) and q["default"] == 3 else k) for j, ((_n, q), k) in enumerate(zip(case["params"], case["kinds"]))]
+    case["int_for_float"] = case["params"][i][0]
+    return case
+
+
+def p81(case, n, fmt, edd):
+    """P81: a float / complex parameter whose default is an INTEGER literal - the literal's own type competes with the
+    declared one wherever the default also travels as prose or through argparse's `type=`.  Strict where it travels in
+    the signature only: the function format without the `Defaults to` sentence"""
+    return case.get("int_for_float") == n and is_open("P81") and not (fmt == "function" and not edd)
+
+
 def strategy(ctx):
     return st.one_of(
         undocumented_suffix(),
+        int_for_float(),
         gen_ir.wrap_boundary_interface(),
         gen_ir.interface("signature", suffix=True),
         gen_ir.interface("signature", suffix=True, min_params=2, max_params=5),
@@ -127,6 +150,9 @@ def check_cell(r, case, cell):
         with core.quiet():
             back = hops.fix(hops.parse_src(fmt, src))
     except Exception as e:
+        if case.get("int_for_float") and p81(case, case["int_for_float"], fmt, edd):
+            r.covered("P81")
+            return
         r.fail("parse-raises", "%s %s on %r" % (tag, core.exc_bucket(e), src[:400]))
         return
     want_names = [n for n, _p in params]
@@ -159,6 +185,8 @@ def check_cell(r, case, cell):
                 r.covered("P13")
             elif types_from_doc_only and indented_numpydoc:
                 r.covered(doc_lost)  # the type lives only in the (unrecognised) docstring
+            elif p81(case, n, fmt, edd):
+                r.covered("P81")
             else:
                 r.fail("typ", "%s %s: %r -> %r" % (tag, n, wt, gt))
         # ---- default (value and python type)
@@ -171,6 +199,8 @@ def check_cell(r, case, cell):
                 r.covered("P63")  # multi-word string default wrapped inside its quotes (embedded ReST docstring)
             elif style == "google" and fmt == "function" and not p.get("doc") and "default" in p and any("default" in q for _m, q in params[: [x for x, _ in params].index(n)]) and is_open("P61"):
                 r.covered("P61")  # forced zero-value default of an empty google entry overrides the signature's default
+            elif p81(case, n, fmt, edd):
+                r.covered("P81")
             else:
                 r.fail("default", "%s %s (%s): %r -> %r" % (tag, n, wt, wd, gd))
         # ---- description
